@@ -276,7 +276,11 @@ fn scripted_one(rt: &tokio::runtime::Runtime, scn: &[Value], serial: &mut u64, o
 // free running
 
 fn random_call(rng: &mut impl Rng, regs: &[String], ctrs: &[String], serial: &AtomicU64) -> Call {
-    let fresh = |_: ()| format!("v{}", serial.fetch_add(1, Ordering::Relaxed));
+    // unique values of varied length (0-70 bytes of padding): overwrites go long -> shorter and back
+    let fresh = |_: ()| {
+        let n = serial.fetch_add(1, Ordering::Relaxed);
+        format!("v{}{}", n, "p".repeat([0usize, 0, 25, 40, 0, 70, 33][(n % 7) as usize]))
+    };
     if !ctrs.is_empty() && rng.gen_bool(0.3) {
         // counter key: incr (generic or script), numeric set, get, del
         let key = ctrs[rng.gen_range(0..ctrs.len())].clone();
@@ -330,6 +334,47 @@ fn random_call(rng: &mut impl Rng, regs: &[String], ctrs: &[String], serial: &At
 
 fn hung(ops: &[Done]) -> bool {
     ops.iter().any(|d| matches!(&d.replies, Some(rs) if rs.iter().any(|r| matches!(r, RespValue::Error(e) if e.contains("never completed") || e.contains("HANG")))))
+}
+
+/// Batches far deeper than any per-message budget: one client writes N keys in one batched pipeline call,
+/// overwrites them with shorter (still long) values in a second one, reads all of them back in a third and a
+/// few through the generic path, on 1, 2 and 4 shards.  Sequential, so every key's history has exactly one
+/// linearization; the record format is that of the concurrent histories (LinTrace).
+fn bigbatch_one(rt: &tokio::runtime::Runtime, shards: usize, n: usize, out: &mut Out) {
+    let mut ops: Vec<Done> = Vec::new();
+    let keys: Vec<String> = (0..n).map(|i| format!("bk{i}")).collect();
+    rt.block_on(async {
+        let st: Arc<State> = Arc::new(make_state(shards, 2, 1));
+        let mut ticket = 1u64;
+        let mut id = 0usize;
+        for round in 0..2 {
+            let subs: Vec<Sub> = keys.iter().enumerate().map(|(i, k)| Sub { key: k.clone(), kind: "set", arg: format!("r{round}k{i}{}", "q".repeat(if round == 0 { 60 } else { 30 })), argn: 0, num: false }).collect();
+            let call = Call { path: "batch", subs };
+            let inv = ticket;
+            let r = tokio::time::timeout(std::time::Duration::from_secs(20), issue(st.clone(), call.clone())).await
+                .unwrap_or_else(|_| vec![RespValue::err("HARNESS never completed"); n]);
+            ticket += 2;
+            id += 1;
+            ops.push(Done { id, c: 1, call, inv, ret: inv + 1, replies: Some(r) });
+        }
+        let subs: Vec<Sub> = keys.iter().map(|k| Sub { key: k.clone(), kind: "get", arg: String::new(), argn: 0, num: false }).collect();
+        let call = Call { path: "batch", subs };
+        let inv = ticket;
+        let r = tokio::time::timeout(std::time::Duration::from_secs(20), issue(st.clone(), call.clone())).await
+            .unwrap_or_else(|_| vec![RespValue::err("HARNESS never completed"); n]);
+        ticket += 2;
+        id += 1;
+        ops.push(Done { id, c: 1, call, inv, ret: inv + 1, replies: Some(r) });
+        for i in (0..n).rev().step_by((n / 12).max(1)) {
+            let call = Call { path: "generic", subs: vec![Sub { key: keys[i].clone(), kind: "get", arg: String::new(), argn: 0, num: false }] };
+            let inv = ticket;
+            let r = issue(st.clone(), call.clone()).await;
+            ticket += 2;
+            id += 1;
+            ops.push(Done { id, c: 1, call, inv, ret: inv + 1, replies: Some(r) });
+        }
+    });
+    emit_history(out, "bigbatch", json!({"shards": shards, "n": n}), &ops);
 }
 
 fn free_one(rt: &tokio::runtime::Runtime, seed: u64, clients: usize, nops: usize, nkeys: usize, out: &mut Out) -> bool {
@@ -480,6 +525,19 @@ pub fn main(args: &[String]) -> i32 {
                     if hangs >= 3 {
                         break; // every such history is a violation already; waiting out more time-outs adds nothing
                     }
+                }
+            }
+        }
+        Some("bigbatch") => {
+            let rt = tokio::runtime::Builder::new_multi_thread().worker_threads(2).enable_all().build().unwrap();
+            let thorough = a.str("tier", "quick") == "thorough";
+            for shards in [1usize, 2, 4] {
+                let mut sizes = vec![63usize, 64, 65, 100, 128, 129, 300];
+                if thorough {
+                    sizes.extend([255, 256, 257, 1000, 1025, 4097]);
+                }
+                for n in sizes {
+                    bigbatch_one(&rt, shards, n, &mut out);
                 }
             }
         }
